@@ -664,27 +664,27 @@ func rulesC14(r *Run) {
 	if m == nil {
 		return
 	}
+	// The scope is found structurally: everything the vault's Create and Delete reach inside the
+	// package (the exported entry points are fixed by the storage interfaces; helpers may be renamed).
+	scope := sqliteMutationScope(r)
 	r.Kind("R1", "K11+K3")
-	ruleTransactionScope(r, "R1", sqlKey("commitPlan"))
-	ruleTransactionScope(r, "R1", sqlKey("deleter.Delete"))
+	nTx := 0
+	for _, k := range scope {
+		if fn := r.P.Funcs[k]; fn != nil && registersTransaction(fn) {
+			nTx++
+			ruleTransactionScope(r, "R1", k, scope)
+		}
+	}
+	if nTx < 2 {
+		r.Fail("R1", "transaction-scope:count", m.pkgPos(), "only %d function(s) reachable from Create/Delete register sqlitex.Transaction; both the create and the delete path must run inside one", nTx)
+	}
 	r.Expect("R1", 2)
 
 	r.Kind("R2", "K6")
-	scope := []string{"commitPlan", "commitChecks", "commitBlock", "commitSequence", "commitAction", "encodeAttempts", "idsToJSON", "Stmt.Prepare",
-		"creator.Create", "deleter.Delete", "deleter.deletePlan", "deleter.deleteBlocks", "deleter.deleteChecks", "deleter.deletesSeqs", "deleter.deleteActions"}
-	for _, s := range scope {
-		if fn := r.fnByKey("R2", sqlKey(s)); fn != nil {
+	for _, k := range scope {
+		if fn := r.P.Funcs[k]; fn != nil && fn.Decl.Body != nil && (hasErrorResult(fn) || strings.HasSuffix(k, ".Prepare")) {
+			r.Funcs[k] = true
 			errorDiscipline(r, "R2", fn)
-		}
-	}
-	// the scope is closed: everything commitPlan/deletePlan reach inside the package is listed
-	reach := r.P.CallGraph().Reach([]string{sqlKey("commitPlan"), sqlKey("deleter.deletePlan")}, func(e CallEdge) bool { return strings.HasPrefix(e.Callee, pkgSqlite+".") })
-	for k := range reach {
-		short := strings.TrimPrefix(k, pkgSqlite+".")
-		if !inSet(scope, short) {
-			if fn := r.P.Funcs[k]; fn != nil && fn.Decl.Body != nil && hasErrorResult(fn) {
-				errorDiscipline(r, "R2", fn)
-			}
 		}
 	}
 	r.Expect("R2", 55)
@@ -713,7 +713,63 @@ func hasErrorResult(fn *Func) bool {
 
 // ruleTransactionScope: `defer sqlitex.Transaction(conn)(&e)` registered before the
 // first statement, e being an error variable the failing calls assign.
-func ruleTransactionScope(r *Run, rule, key string) {
+// sqliteMutationScope: creator.Create, deleter.Delete and every function of the package they reach (sorted keys).
+func sqliteMutationScope(r *Run) []string {
+	inPkg := func(e CallEdge) bool { return strings.HasPrefix(e.Callee, pkgSqlite+".") }
+	reach := r.P.CallGraph().Reach([]string{sqlKey("creator.Create"), sqlKey("deleter.Delete")}, inPkg)
+	// the read side (what the storage.Reader entry points reach) is not part of the mutation: Delete reads the plan first
+	readSide := r.P.CallGraph().Reach([]string{sqlKey("reader.Read"), sqlKey("reader.Search"), sqlKey("reader.List")}, inPkg)
+	var out []string
+	for k := range reach {
+		if _, isRead := readSide[k]; isRead {
+			continue
+		}
+		if fn := r.P.Funcs[k]; fn != nil && fn.Decl.Body != nil {
+			out = append(out, k)
+		}
+	}
+	sort.Strings(out)
+	return out
+}
+
+// sqliteCreateScope: creator.Create and every function of the package it reaches (sorted keys).
+func sqliteCreateScope(r *Run) []string {
+	inPkg := func(e CallEdge) bool { return strings.HasPrefix(e.Callee, pkgSqlite+".") }
+	reach := r.P.CallGraph().Reach([]string{sqlKey("creator.Create")}, inPkg)
+	readSide := r.P.CallGraph().Reach([]string{sqlKey("reader.Read"), sqlKey("reader.Search"), sqlKey("reader.List")}, inPkg)
+	var out []string
+	for k := range reach {
+		if _, isRead := readSide[k]; isRead {
+			continue
+		}
+		if fn := r.P.Funcs[k]; fn != nil && fn.Decl.Body != nil {
+			out = append(out, k)
+		}
+	}
+	sort.Strings(out)
+	return out
+}
+
+// executesOrCreates: the function is Create itself or (transitively) executes a statement.
+func executesOrCreates(r *Run, key string) bool {
+	return key == sqlKey("creator.Create") || scopeExecutes(r, key)
+}
+
+// registersTransaction: the function defers sqlitex.Transaction(conn)(&err).
+func registersTransaction(fn *Func) bool {
+	found := false
+	ast.Inspect(fn.Decl.Body, func(n ast.Node) bool {
+		if c, ok := n.(*ast.CallExpr); ok {
+			if f, ok := calleeFunc(fn.Pkg.TypesInfo, c); ok && FuncKey(f) == "zombiezen.com/go/sqlite/sqlitex.Transaction" {
+				found = true
+			}
+		}
+		return !found
+	})
+	return found
+}
+
+func ruleTransactionScope(r *Run, rule, key string, scope []string) {
 	fn := r.fnByKey(rule, key)
 	if fn == nil {
 		return
@@ -746,8 +802,7 @@ func ruleTransactionScope(r *Run, rule, key string) {
 			}
 			if e.Kind == EvCall && !e.Deferred && firstStmt < 0 {
 				k := CalleeKey(e)
-				if k == sqlKey("Stmt.Prepare") || k == "zombiezen.com/go/sqlite.Conn.Prepare" || k == "zombiezen.com/go/sqlite.Stmt.Step" ||
-					(strings.HasPrefix(k, pkgSqlite+".commit") || strings.HasPrefix(k, pkgSqlite+".deleter.delete")) {
+				if k == "zombiezen.com/go/sqlite.Conn.Prepare" || k == "zombiezen.com/go/sqlite.Stmt.Step" || (k != key && inSet(scope, k) && scopeExecutes(r, k)) {
 					firstStmt = j
 				}
 			}
@@ -948,20 +1003,68 @@ func ruleCreateUnique(r *Run, rule string, m *sqliteModel) {
 	r.Check(rule, "schema:id-primary-key-everywhere", m.pkgPos(), pk, "every table must declare id PRIMARY KEY")
 }
 
+// scopeExecutes: the function (transitively, inside the package) prepares or steps a statement.
+func scopeExecutes(r *Run, key string) bool {
+	reach := r.P.CallGraph().Reach([]string{key}, func(e CallEdge) bool {
+		return strings.HasPrefix(e.Callee, pkgSqlite+".") || strings.HasPrefix(e.Callee, "zombiezen.com/go/sqlite")
+	})
+	for k := range reach {
+		if k == "zombiezen.com/go/sqlite.Conn.Prepare" || k == "zombiezen.com/go/sqlite.Stmt.Step" {
+			return true
+		}
+	}
+	return false
+}
+
+// deleteFuncFor: the function Delete reaches that takes the objects of type typ (a *T or []*T parameter).
+func deleteFuncFor(r *Run, typ string) *Func {
+	reach := r.P.CallGraph().Reach([]string{sqlKey("deleter.Delete")}, func(e CallEdge) bool { return strings.HasPrefix(e.Callee, pkgSqlite+".") })
+	var keys []string
+	for k := range reach {
+		keys = append(keys, k)
+	}
+	sort.Strings(keys)
+	for _, k := range keys {
+		fn := r.P.Funcs[k]
+		if fn == nil || fn.Decl.Body == nil || k == sqlKey("deleter.Delete") {
+			continue
+		}
+		sig := fn.Obj.Type().(*types.Signature)
+		for i := 0; i < sig.Params().Len(); i++ {
+			t := sig.Params().At(i).Type()
+			if sl, ok := t.(*types.Slice); ok {
+				t = sl.Elem()
+			}
+			if _, isPtr := t.(*types.Pointer); isPtr && ShortType(t) == typ {
+				return fn
+			}
+		}
+	}
+	return nil
+}
+
 // ruleDeleteComplete: every child-bearing field is traversed, one DELETE per table, WHERE id = $id bound to the own ID.
 func ruleDeleteComplete(r *Run, rule string, m *sqliteModel) {
 	info := m.info
 	subjects := []struct {
 		fn, typ string
 	}{
-		{"deleter.deletePlan", "workflow.Plan"}, {"deleter.deleteBlocks", "workflow.Block"}, {"deleter.deleteChecks", "workflow.Checks"},
-		{"deleter.deletesSeqs", "workflow.Sequence"}, {"deleter.deleteActions", "workflow.Action"},
+		{"", "workflow.Plan"}, {"", "workflow.Block"}, {"", "workflow.Checks"}, {"", "workflow.Sequence"}, {"", "workflow.Action"},
+	}
+	deleteFns := map[string]bool{}
+	for i := range subjects {
+		if fn := deleteFuncFor(r, subjects[i].typ); fn != nil {
+			subjects[i].fn = ShortFn(fn.Key)
+			deleteFns[fn.Key] = true
+		}
 	}
 	for _, s := range subjects {
-		fn := r.fnByKey(rule, sqlKey(s.fn))
+		fn := deleteFuncFor(r, s.typ)
 		if fn == nil {
+			r.Unresolved(rule, "the function Delete reaches that takes a "+s.typ)
 			continue
 		}
+		r.Funcs[fn.Key] = true
 		// child-bearing fields of the type
 		st, _ := r.P.StructOf("workflow", strings.TrimPrefix(s.typ, "workflow."))
 		var need []string
@@ -982,7 +1085,7 @@ func ruleDeleteComplete(r *Run, rule string, m *sqliteModel) {
 				return true
 			}
 			f, ok := calleeFunc(info, c)
-			if !ok || !strings.HasPrefix(FuncKey(f), pkgSqlite+".deleter.delete") {
+			if !ok || !deleteFns[FuncKey(f)] {
 				return true
 			}
 			for _, a := range c.Args {
@@ -1090,7 +1193,12 @@ func rulesC15(r *Run) {
 
 	// R6: only plans whose Create succeeded exist: the create transaction watches the error the failing calls assign
 	r.Kind("R6", "K11+K3")
-	ruleTransactionScope(r, "R6", sqlKey("commitPlan"))
+	createScope := sqliteCreateScope(r)
+	for _, k := range createScope {
+		if fn := r.P.Funcs[k]; fn != nil && registersTransaction(fn) {
+			ruleTransactionScope(r, "R6", k, createScope)
+		}
+	}
 	ruleCreateUnique(r, "R6", m)
 	r.Expect("R6", 3)
 }
